@@ -68,7 +68,9 @@ def config_copy_rule(chk, src, rule, classes=("CompressConfig",)):
             it = SymInterp(src, None, {})
             try:
                 new = it.call_function(fi, [me])
-            except Exception as e:      # noqa: BLE001 - reported as the finding
+            except AnalysisError:
+                raise                   # the stand-ins cannot follow the code: no verdict
+            except Exception as e:      # noqa: BLE001 - an exception of the interpreted code is the finding
                 chk.ob(rule, f"{cname}.copy [{variant}]", False, fi.where, f"{type(e).__name__}: {e}", "a copy carrying every attribute", line=fi.node.lineno)
                 continue
             probs = []
@@ -201,12 +203,12 @@ def run(chk):
 META = {
     "category": "other",
     "engine": "QN + FLOW",
-    "technique": "typestate of decomposition results (sorted vs blocked) over def-use inside each function + min-form recognition of kept-count expressions (ast)",
+    "technique": "abstract interpretation of compress, _update_ms, _update_mps, select_basis, svd_qn, truncate_tensors, compute_m_trunc and CompressConfig.copy on abstract tensors / column provenance / min-sets (kept counts as min over named bounds, singular values as mutable array objects), tree decompositions on symbolic trees",
     "text": "Decides the bond-limit half of C05 and the precondition of the error-bound half: prefix truncation only ever sees a globally "
             "sorted spectrum, factors and labels are cut together, the kept count is a min against the configured limit and the spectrum "
             "length, and both ways of specifying a limit address the same bond. The discarded-weight inequality itself is a theorem about "
             "singular values and is not decided."
             ' The criteria dispatch and the threshold count are decided by abstract runs (result = min over a set of bounds; count of normalised values above the threshold).',
     "note": "Forms understood for bounds: min / np.minimum; anything else on those assignments stops the analysis (exit 2).",
-    "design_ref": "DESIGN.md 3.4, 3.5, 4 (C05)",
+    "design_ref": "DESIGN.md 3.4, 3.5, 4 (C05); as built: 9.1, 9.3, 9.8",
 }
